@@ -27,6 +27,8 @@ def build(eng, tier):
     # node (returned False) has had no field written
     from . import C05
     C05.build_identity(eng)
+    # modified=False => no IR edit, for the constant-lifting pass (target shared with C05: symbolic edit counter)
+    C05.build_constant_lifting(eng)
     # analysis passes leave the model unchanged under faults: the shared call_onnx_api wrapper
     from . import onnx_api
     onnx_api.add_call_onnx_api_target(eng)
